@@ -29,11 +29,25 @@ TRUSTED_COMMON = [
 ]
 
 
-def load_contracts(prop):
+def load_contracts(prop, carried=False):
     mods = sorted(glob.glob(os.path.join(ROOT, "contracts", f"c{prop[1:]}_*.py")))
     for m in mods:
         importlib.import_module("contracts." + os.path.basename(m)[:-3])
-    return core.REGISTRY.get(prop, [])
+    own = list(core.REGISTRY.get(prop, []))
+    if not carried:
+        return own
+    # callee contracts of another property's file that this property's contracts are verified AGAINST (modular
+    # verification: a caller is checked against the callee's contract; the callee contract is discharged here too,
+    # so that a change inside the callee fails THIS check as well) -- contracts/carried.py
+    from contracts.carried import CARRIED
+
+    out = [(c, None) for c in own]
+    for p2, name, filt in CARRIED.get(prop, []):
+        load_contracts(p2)
+        for c in core.REGISTRY.get(p2, []):
+            if c.name == name:
+                out.append((c, filt))
+    return out
 
 
 def main(argv=None):
@@ -54,7 +68,7 @@ def main(argv=None):
         return replay(a.replay)
     prop = a.prop
     try:
-        contracts = load_contracts(prop)
+        contracts = load_contracts(prop, carried=True)
     except Exception:
         import traceback
 
@@ -62,13 +76,15 @@ def main(argv=None):
         print(f"CHECKER-ERROR property={prop} contracts failed to import (felupe import error?)")
         return 3
     tasks = []
-    for c in contracts:
+    for c, filt in contracts:
         for i, cfg in enumerate(c.configs):
             if cfg.get("tier", "quick") == "thorough" and a.tier != "thorough":
                 continue
             if a.only and a.only not in c.name and a.only not in core.cfgkey(cfg):
                 continue
-            tasks.append((prop, c.name, i, a.tier, seed))
+            if filt is not None and not filt(cfg):
+                continue
+            tasks.append((c.prop, c.name, i, a.tier, seed))
     if not tasks:
         print(f"UNDECIDED property={prop}: no contracts / zero obligations generated")
         return 2
@@ -150,7 +166,8 @@ def _dead(t, why, status):
 
 
 def report(prop, a, seed, results, wall):
-    known = [k for k in core.load_known_findings() if k["property"] == prop]
+    carried_props = {r["prop"] for r in results}
+    known = [k for k in core.load_known_findings() if k["property"] == prop or k["property"] in carried_props]
     obl = [o for r in results for o in r["obl"]]
     by = {}
     for o in obl:
@@ -169,8 +186,11 @@ def report(prop, a, seed, results, wall):
     ledger_path = os.path.join(core.ROOT, "obligations.lock.json")
     ledger = json.load(open(ledger_path)) if os.path.exists(ledger_path) else {}
     counts = {}
+    def rkey(r):
+        return ("" if r["prop"] == prop else r["prop"] + ":") + r["contract"] + ("[" + r["cfg"] + "]" if r["cfg"] else "")
+
     for r in results:
-        key = r["contract"] + ("[" + r["cfg"] + "]" if r["cfg"] else "")
+        key = rkey(r)
         counts[key] = counts.get(key, 0) + len([o for o in r["obl"] if o["status"] != "error"])
     ledger_msgs = []
     if a.update_ledger and not a.only:
@@ -182,7 +202,7 @@ def report(prop, a, seed, results, wall):
             ledger_msgs.append("no ledger entry for this property/tier")
         else:
             for k, n in locked.items():
-                if counts.get(k, 0) < n and not any(o["status"] in ("error", "undecided", "refuted") for r in results if r["contract"] + ("[" + r["cfg"] + "]" if r["cfg"] else "") == k for o in r["obl"]):
+                if counts.get(k, 0) < n and not any(o["status"] in ("error", "undecided", "refuted") for r in results if rkey(r) == k for o in r["obl"]):
                     ledger_msgs.append(f"obligation set shrank for {k}: {counts.get(k, 0)} < {n}")
 
     # replay files
@@ -190,7 +210,7 @@ def report(prop, a, seed, results, wall):
     lines = []
     per_contract = {}
     for o, _ in new_viol:
-        cname = o["name"].split("/")[1]
+        cname = "/".join(o["name"].split("/")[:2]) if not o["name"].startswith(prop + "/") else o["name"].split("/")[1]
         per_contract.setdefault(cname, []).append(o)
     for cname, os_ in per_contract.items():
         # prefer a confirmed replay
@@ -201,6 +221,10 @@ def report(prop, a, seed, results, wall):
             rep.setdefault("obligation", o["name"])
             rep.setdefault("property", prop)
             rep.setdefault("verifier_output", o["detail"])
+            rep["reported_by_check"] = prop
+            if not o["name"].startswith(prop + "/"):
+                rep["property"] = o["name"].split("/")[0]  # the callee contract lives in that property's contract files (replay loads them)
+                rep["carried_callee_contract"] = f"{o['name'].split('/')[0]} contract discharged as a callee contract of {prop}"
         rep["also_refuted"] = [x["name"] for x in os_[1:30]]
         h = hashlib.sha1(o["name"].encode()).hexdigest()[:10]
         path = os.path.join(core.ROOT, "replays", f"{prop}_{h}.json")
@@ -285,8 +309,8 @@ def write_evidence(prop, a, seed, results, obl, discharged, total, known_hit, ne
     mod = sys.modules.get("contracts_meta_" + prop)
     extra_trusted = []
     for m in list(sys.modules.values()):
-        if getattr(m, "__name__", "").startswith("contracts.c" + prop[1:]):
-            extra_trusted += getattr(m, "TRUSTED", [])
+        if getattr(m, "__name__", "").startswith("contracts.c" + prop[1:]) or any(getattr(m, "__name__", "").startswith("contracts.c" + r["prop"][1:] + "_") for r in results if r["prop"] != prop):
+            extra_trusted += [t for t in getattr(m, "TRUSTED", []) if t not in extra_trusted]
     ev = {
         "property_id": prop,
         "tier": a.tier,
@@ -302,7 +326,8 @@ def write_evidence(prop, a, seed, results, obl, discharged, total, known_hit, ne
             "functions_under_contract": functions,
             "contracts": [
                 {
-                    "contract": r["contract"],
+                    "contract": ("" if r["prop"] == prop else r["prop"] + ":") + r["contract"],
+                    **({"carried": f"callee contract of {r['prop']} that the contracts of {prop} are verified against"} if r["prop"] != prop else {}),
                     "cfg": r["cfg"],
                     "engine": r["engine"],
                     "obligations": len(r["obl"]),
